@@ -53,6 +53,11 @@ theorem shape_set_coeffs (a : Arr) (c : CoeffArg) :
   cases c with
   | none => cases cf <;> simp [SStmt.run, SCond.eval, setCoeffs, bind, Except.bind, pure, Except.pure]
   | scalar x => simp [SStmt.run, SCond.eval, setCoeffs, bind, Except.bind, pure, Except.pure]
+  | notFlat n =>
+    cases n with
+    | zero => cases cf <;> simp [SStmt.run, SCond.eval, setCoeffs, bind, Except.bind, pure, Except.pure]
+    | succ k => simp [SStmt.run, SCond.eval, setCoeffs, bind, Except.bind, pure, Except.pure]
+  | badElems b => cases b <;> simp [SStmt.run, SCond.eval, setCoeffs, bind, Except.bind, pure, Except.pure]
   | seq cs =>
     cases cs with
     | nil => cases cf <;> simp [SStmt.run, SCond.eval, setCoeffs, bind, Except.bind, pure, Except.pure]
